@@ -39,6 +39,7 @@ HEADER = ("From Coq Require Import ZArith List Floats. Import ListNotations. "
 UNIT_M = [0.0254, 0.001, 0.01, 1.0, 2.54e-5, 1e-6]
 KSB = 5.67032e-8
 D1_SIGNATURE = "D1-nonlinear-scan-misses-elements-beyond-NumNodes"
+F2_SIGNATURE = "F2-conductor-heat-flow-ignores-external-region-scaling"
 
 
 # ---------------------------------------------------------------------------- dump ----
@@ -145,11 +146,11 @@ def coq_defs(d):
     return "\n".join(out)
 
 
-def to_coq(d, bound):
+def to_coq(d, bound, extfix="false"):
     """model of the single pass at Vo = V1 (RUN2), of the conductor heat flows at V1 and of the
     decisions of the outer loop; returns (definitions, expression)"""
     f = vlib.fhexs
-    charges = "; ".join("heat_on_conductor FA P %s V1 %s" % (f(d["depth_after"]), nat(i)) for i in range(d["nc"]))
+    charges = "; ".join("heat_on_conductor FA P %s %s V1 %s" % (extfix, f(d["depth_after"]), nat(i)) for i in range(d["nc"]))
     expr = ("let r := hpass FA P L D0 c_pows in "
             "(dump_rows FA (lM (fst (fst (fst r)))) ++ lb (fst (fst (fst r))), snd (fst (fst r)), [%s], "
             "[nonlinear_scan P (%s P); snd r; outer_converged FA P (firstn %s V1) V2], [D0; snd (fst r); ksb FA])"
@@ -157,8 +158,8 @@ def to_coq(d, bound):
     return coq_defs(d), expr
 
 
-def model_eval(d, bound, timeout=1800):
-    defs, expr = to_coq(d, bound)
+def model_eval(d, bound, extfix="false", timeout=1800):
+    defs, expr = to_coq(d, bound, extfix)
     return vlib.coq_eval(HEADER + "\n" + defs, [expr], timeout=timeout)[0]
 
 
@@ -258,7 +259,7 @@ def previous_by_coordinates(d, prev):
     return out
 
 
-def si_system(d, T, Tprev):
+def si_system(d, T, Tprev, warp=True):
     """Textbook P1 system in SI units from the dumped mesh and properties, conductivities at the
     temperatures T:  (Ks + Km + C/dt) T = f + C/dt Tprev  at free nodes.
     returns (Ks, Km, Cdt, f, presc dict node->T, floating dict c->[nodes])."""
@@ -290,7 +291,7 @@ def si_system(d, T, Tprev):
         rbar = P[:, 0].mean()
         dep = 2 * math.pi * rbar if d["axi"] else depth
         kl = 1.0
-        if d["axi"] and d["labels"][e[7]]:
+        if warp and d["axi"] and d["labels"][e[7]]:
             u = UNIT_M[d["unit"]]
             z = P[:, 1].mean() - d["extZo"] * u
             kl = (rbar * rbar + z * z) / (d["extRi"] * u * d["extRo"] * u)
@@ -406,7 +407,13 @@ def oracle(d, prev=None):
         rep = d["chargeall"][c]
         sc = sum((np.abs(Ks) @ np.abs(T))[i] for i in mem)
         if abs(react - rep) > 1e-9 * max(sc, 1e-300):
-            return "heat flow reported for conductor %d (%.9g) differs from the flux the temperatures imply (%.9g)" % (c, rep, react), None
+            # the same reaction with the un-warped conductivity in the external region
+            Ks0 = si_system(d, T, Tprev, warp=False)[0]
+            react0 = sum((Ks0 @ T)[i] for i in mem)
+            sig = F2_SIGNATURE if abs(react0 - rep) <= 1e-9 * max(sc, abs(react0), 1e-300) else None
+            return ("heat flow reported for conductor %d (%.9g) differs from the flux the temperatures imply (%.9g)%s"
+                    % (c, rep, react, "; it equals the flux computed without the external-region scaling of the "
+                       "conductivity that the assembled equations use" if sig else "")), sig
         if d["circs"][c][0] == 1 and abs(d["charge"][c] - rep) > 1e-12 * max(abs(rep), 1e-300):
             return "heat flow stored for fixed-temperature conductor %d differs from ChargeOnConductor" % c, None
     # heat balance: the conduction part has vanishing column sums
@@ -469,6 +476,13 @@ def gen_problem(rng, quick, family, k=0):
     p["dosmartmesh"] = 0 if rng.random() < (0.9 if quick else 0.8) else 1
     p["dt"] = 0.0
     p["family"] = family
+    if p["problemtype"] == "axisymmetric" and rng.random() < 0.4:
+        # one region is declared part of the conformally mapped external region (its
+        # conductivity is divided by (r^2+z^2)/(Ri*Ro))
+        ys = [q["y"] for q in p["points"]]
+        p.update(extRo=rng.choice([3.0, 5.0]), extRi=rng.choice([2.0, 2.5]), extZo=min(ys) - rng.choice([0.5, 1.0]))
+        p["labels"][rng.randrange(len(p["labels"]))]["external"] = 1
+        p["features"].append("external")
     if what in ("tk", "both"):
         for i in sorted(used_blocks(p)):
             if rng.random() < 0.6:
@@ -523,11 +537,19 @@ def transient_pair(rng, quick, k):
             bp["Tinf"] = femgen.rnd_nice(rng, 280, 320)
     for b in prev["blockprops"]:
         b["qv"] = rng.choice([0.0, 1e3])
-    cur["dt"] = rng.choice([0.5, 10.0, 1000.0, 1e5])
     for b in cur["blockprops"]:
-        if b.get("kt", 0) == 0 and rng.random() < 0.7:
-            b["kt"] = rng.choice([1.0, 3.5, 0.02])          # MJ/(m^3 K) as the file gives it
-    cur["features"] = cur["features"] + ["dt=%g" % cur["dt"]]
+        if b.get("kt", 0) == 0 and rng.random() < 0.8:
+            b["kt"] = rng.choice([1.0, 3.5, 0.02])
+    # time step from a Fourier number so that the capacity term is comparable with conduction
+    # whatever the length unit: dt = C L^2 / (k Fo)
+    u = femgen.UNIT_M[cur["units"]]
+    L_ = max(max(q["x"] for q in cur["points"]) - min(q["x"] for q in cur["points"]),
+             max(q["y"] for q in cur["points"]) - min(q["y"] for q in cur["points"])) * u
+    kts = [b.get("kt", 0) for b in cur["blockprops"] if b.get("kt", 0) != 0] or [1.0]
+    kxs = [b.get("kx", 1) for b in cur["blockprops"]]
+    fo = rng.choice([0.5, 5.0, 50.0, 500.0])
+    cur["dt"] = float("%.3g" % (max(kts) * L_ * L_ / (max(kxs) * fo)))
+    cur["features"] = cur["features"] + ["Fo=%g" % fo]
     return prev, cur
 
 
@@ -549,7 +571,7 @@ def run_case(ctx, k, p, prev_problem=None):
         msg = mesh(ctx, fp)
         if msg:
             return None, None, msg
-        rc, out, err = vlib.sh([ctx.snap.tool("hsolver"), fp[:-4]], timeout=300, cwd=ctx.work)
+        rc, out, err = vlib.sh([ctx.snap.tool("hsolver"), fp[:-4]], timeout=150, cwd=ctx.work)
         if rc != 0 or not os.path.exists(fp[:-4] + ".anh"):
             return None, None, "hsolver failed (rc=%d) on a well-formed steady problem: %s" % (rc, (out + err)[-300:])
         prev, _ = read_anh(fp[:-4] + ".anh")
@@ -560,7 +582,7 @@ def run_case(ctx, k, p, prev_problem=None):
     if msg:
         return None, None, msg
     dump = f[:-4] + ".dump"
-    rc, out, err = vlib.sh([exe, f[:-4], dump], timeout=600)
+    rc, out, err = vlib.sh([exe, f[:-4], dump], timeout=150)
     if not os.path.exists(dump):
         return None, None, "harness crashed (rc=%d): %s" % (rc, err[-300:])
     d = parse_dump(dump)
@@ -572,7 +594,7 @@ def run_case(ctx, k, p, prev_problem=None):
 
 def binary_agrees(ctx, d):
     """the real hsolver binary writes the temperatures and conductor heat flows the harness saw"""
-    rc, out, err = vlib.sh([ctx.snap.tool("hsolver"), d["path"]], timeout=600, cwd=ctx.work)
+    rc, out, err = vlib.sh([ctx.snap.tool("hsolver"), d["path"]], timeout=150, cwd=ctx.work)
     anh = d["path"] + ".anh"
     if rc != 0 or not os.path.exists(anh):
         return "hsolver binary failed (rc=%d) where the harness succeeded: %s" % (rc, (out + err)[-300:])
@@ -600,8 +622,19 @@ def scan_variant(ctx):
     raise vlib.TranslateError("hsolver.cpp: the nonlinear scan is bounded by %s (NumNodes or NumEls expected)" % m.group(1))
 
 
+def flow_variant(ctx):
+    """does HSolver::ChargeOnConductor apply the external-region scaling?"""
+    src = open(os.path.join(ctx.snap.src, "hsolver", "hsolver.cpp"), "rb").read().decode("latin1")
+    i = src.find("double HSolver::ChargeOnConductor")
+    if i < 0:
+        raise vlib.TranslateError("hsolver.cpp: HSolver::ChargeOnConductor not found")
+    j = src.find("\n}", i)
+    return "true" if "IsExternal" in src[i:j] else "false"
+
+
 def regen(ctx):
     ctx.scan_bound = scan_variant(ctx)
+    ctx.extfix = flow_variant(ctx)
 
 
 def plan(ctx):
@@ -625,6 +658,7 @@ def make_case(ctx, rng, fam, k):
 def correspond(ctx):
     rng = ctx.rng
     bound = getattr(ctx, "scan_bound", None) or scan_variant(ctx)
+    extfix = getattr(ctx, "extfix", None) or flow_variant(ctx)
     dis = []
     cases = []
     feats = {}
@@ -654,7 +688,7 @@ def correspond(ctx):
                 ctx.fail(msg, **replay)
         if d["nn"] <= (700 if ctx.quick() else 1500):
             cases.append((p, d, replay))
-    model = [model_eval(d, bound) for (p, d, replay) in cases]
+    model = [model_eval(d, bound, extfix) for (p, d, replay) in cases]
     nb = tot = 0
     for (p, d, replay), m in zip(cases, model):
         bad, t, b = compare(d, m)
@@ -680,6 +714,8 @@ def correspond(ctx):
     cov["nonlinear_cases"] = sum(1 for c in cases if is_nonlinear_problem(c[1]))
     cov["transient_cases"] = sum(1 for c in cases if c[1]["dt"] != 0)
     cov["radiation_edges"] = sum(len(c[1]["pows"]) for c in cases)
+    cov["conductor_flow_variant"] = ("ChargeOnConductor applies the external-region scaling" if extfix == "true"
+                                     else "ChargeOnConductor ignores the external-region scaling (finding F2 present)")
     cov["nonlinear_scan_variant"] = bound + (" (loop bound NumNodes: defect D1 present)" if bound == "scan_bound_asis"
                                              else " (loop bound NumEls)")
     return dis
